@@ -1,4 +1,5 @@
 from abc import ABC, abstractmethod
+import numpy as np
 
 
 class BaseSolve(ABC):
@@ -72,6 +73,7 @@ class MarginalRayHeightSolve(BaseSolve):
         # slope of the ray arriving at the surface (i.e. after the previous one)
         offset = (self.height - ya[self.surface_idx]) / \
             ua[self.surface_idx - 1]
+        offset = float(np.ravel(offset)[0])
 
         # shift current surface and all subsequent surfaces
         for surface in self.optic.surface_group.surfaces[self.surface_idx:]:
